@@ -204,6 +204,37 @@ def judge_forms(version, b, le, u, forms):
     return []
 
 
+def judge_views(version):
+    """the sampler called directly with reversed (negative stride), strided and transposed 2-d VIEWS of the three arrays
+    returns, element by element, what the contiguous 1-d call returns"""
+    from nuspacesim.utils.cdf import grid_cdf_sampler
+
+    smp = grid_cdf_sampler(taus(version).tau_cdf_grid)
+    le = np.array([7.0, 8.5, 9.0, 10.0, 11.0, 7.7, 6.0, 12.0])
+    b = np.array([0.1, 0.2, 0.3, 0.4, 0.5, 0.6, 0.05, 0.7])
+    u = np.array([0.2, 0.4, 0.6, 0.8, 0.3, 0.5, 0.7, 0.1])
+    ref = np.asarray(smp(le.copy(), b.copy(), u.copy()))
+    out = []
+    pad = lambda x: np.stack([x, x + 0.0], axis=1).ravel()  # (views with stride 2 over a padded buffer)
+    forms = {
+        "reversed views": ((le[::-1], b[::-1], u[::-1]), ref[::-1]),
+        "strided views": ((pad(le)[::2], pad(b)[::2], pad(u)[::2]), ref),
+        "transposed 2-d views": ((le.reshape(2, 4).T, b.reshape(2, 4).T, u.reshape(2, 4).T), ref.reshape(2, 4).T),
+        "2-d arrays": ((le.reshape(2, 4), b.reshape(2, 4), u.reshape(2, 4)), ref.reshape(2, 4)),
+        "Fortran-ordered 2-d": ((np.asfortranarray(le.reshape(2, 4)), np.asfortranarray(b.reshape(2, 4)), np.asfortranarray(u.reshape(2, 4))), ref.reshape(2, 4)),
+        "reversed energies only": ((le[::-1].copy()[::-1], b, u), ref),
+    }
+    for name, (args, want) in forms.items():
+        try:
+            got = np.asarray(smp(*args))
+        except Exception as ex:
+            out.append(("sampler_views_agree", f"{name}: values", f"{type(ex).__name__}: {str(ex)[:80]}"))
+            continue
+        if got.shape != want.shape or got.tobytes() != np.ascontiguousarray(want).tobytes():
+            out.append(("sampler_views_agree", f"{name}: {np.asarray(want).ravel()[:3].tolist()}", got.ravel()[:3].tolist()))
+    return out
+
+
 def judge_rejected(version, le):
     for via in ("tau_energy", "sampler"):
         t = taus(version)
@@ -325,6 +356,9 @@ def run(ctx):
                 ctx.tick(n, ("energy_pattern", ver, pat[0] == pat[-1], len(set(pat))))
                 for c, e, o in v:
                     ctx.violation(c, {"kind": "mixed", "version": ver, "b": bb, "le": ll, "u": uu}, e, o)
+        ctx.tick(48, ("views", ver))
+        for c, e, o in judge_views(ver):
+            ctx.violation(c, {"kind": "views", "version": ver}, e, o)
         # input dtype forms: batches of every angle-class pattern (below minimum / in range / above maximum), whole-number
         # energies so that integer arrays can hold them
         for forms in FORMS:
@@ -339,6 +373,8 @@ def run(ctx):
 
 
 def replay(case):
+    if isinstance(case, dict) and case.get("kind") == "views":
+        return judge_views(case["version"])
     if isinstance(case, dict) and case.get("kind") == "forms":
         return judge_forms(case["version"], case["b"], case["le"], case["u"], tuple(case["forms"]))
     if isinstance(case, dict) and case.get("kind") == "pipeline":
